@@ -7,6 +7,7 @@ from typing import Any, Dict, Mapping, Optional, Tuple, Union, cast
 
 import aiohttp
 import defusedxml.ElementTree as DET
+from defusedxml.common import DefusedXmlException
 
 from async_upnp_client.client import UpnpRequester
 from async_upnp_client.exceptions import UpnpResponseError
@@ -25,12 +26,13 @@ def _description_xml_to_dict(description_xml: str) -> Optional[Mapping[str, str]
     """Convert description (XML) to dict."""
     try:
         tree = DET.fromstring(description_xml)
-    except DET.ParseError as err:
+    except (DET.ParseError, DefusedXmlException) as err:
         _LOGGER.debug("Error parsing %s: %s", description_xml, err)
         return None
 
     root = etree_to_dict(tree).get("root")
-    if root is None:
+    if not isinstance(root, Mapping):
+        # No root, or a root element without child elements.
         return None
 
     return root.get("device")
